@@ -130,8 +130,13 @@ impl<'a> AstSink<'a> {
         let kind = self.maybe_rewrite_current_node(cur_kind).or(kind);
         self.builder.finish_node(self.cur_node_contains_error, kind);
         self.cur_node_contains_error = false;
-        // if this is an include statement we store a copy.
-        if self.builder.children.last().map(|n| n.kind()) == Some(Kind::IncludeNode) {
+        // if this is an include statement we store a copy. (An include
+        // statement without a path has already been reported as an error, and
+        // there is nothing to resolve.)
+        if let Some(NodeOrToken::Node(node)) = self.builder.children.last()
+            && node.kind == Kind::IncludeNode
+            && node.iter_children().any(|t| t.kind() == Kind::Path)
+        {
             self.include_statement_count += 1;
         }
     }
@@ -320,6 +325,10 @@ impl Node {
         for item in self.iter_children() {
             if let Some(node) = item.as_node() {
                 if let Some(include) = typed::Include::cast(item) {
+                    // only statements with a path were counted (see finish_node)
+                    if !node.iter_children().any(|t| t.kind() == Kind::Path) {
+                        continue;
+                    }
                     collect.push(IncludeStatement {
                         stmt: include,
                         scope: self.kind,
